@@ -151,6 +151,7 @@ AllNeg(n, ms)  == [j \in 1..Len(ms) |-> ms[j] - n]
 Spellings(n, ms, which) ==
     IF which = "all" THEN {ms, NegLast(n, ms), AllNeg(n, ms)}
     ELSE IF which = "plain" THEN {ms}
+    ELSE IF which = "first" THEN {ms, NegLast(n, ms)}
     ELSE IF which = "ends" /\ ms = SortedSeq(SeqRange(ms)) THEN {ms, NegLast(n, ms)}
     ELSE {ms}
 \* per-mode parameters are DISTINCT (DomPar depends on the mode) for counts, radii and penalties
@@ -159,7 +160,7 @@ ItemsOf(n, k, which) ==
     \cup {WithPars(n, k, "list", SortedSeq(S)) : S \in SUBSET Modes(n)}
     \cup UNION {UNION {{WithPars(n, k, "dict", sp) : sp \in Spellings(n, ms, which)} : ms \in KeyOrders(S, which)} : S \in SUBSET Modes(n)}
 \* a keyword that is GIVEN but requests nothing: falsy scalar; dict / list whose listed values are falsy
-OffKinds(n) == {"non_negative", "l1_reg", "normalize", "hard_sparsity"} \cap KindsFor(n)   \* first, early, middle, last in the keyword order
+OffKinds(n) == {"non_negative", "hard_sparsity"} \cap KindsFor(n)   \* the first and the last keyword in the registration order
 ZeroItem(k, f, ms) == [kind |-> k, form |-> f, falsy |-> "False", modes |-> ms, pars |-> [j \in 1..Len(ms) |-> 0]]
 OffItems(n, k) ==
          {[kind |-> k, form |-> "scalar", falsy |-> "False", modes |-> <<>>, pars |-> <<0>>]}
@@ -172,8 +173,8 @@ Mixed(n, it) ==
     IN  [kind |-> it.kind, form |-> it.form, falsy |-> "False", modes |-> ms,
          pars |-> [j \in 1..Len(ms) |-> IF ms[j] = z THEN 0 ELSE ItemPar(n, it, ms[j])]]
 ByKind(a, b) == IF KindIdx(a.kind) < KindIdx(b.kind) THEN <<a, b>> ELSE <<b, a>>
-\* the first keyword of a pair: one of the "ends" spellings
-PairFirstOK(n, it) == it \in ItemsOf(n, it.kind, "ends")
+\* the first keyword of a pair: ascending keys (every key order is enumerated for single keywords)
+PairFirstOK(n, it) == it \in ItemsOf(n, it.kind, "first")     \* ascending keys, last mode also written -1
 
 \* structural validity (what the trace specification checks on an event; no big set is built)
 StrictlyIncreasing(s) == \A j \in 1..(Len(s) - 1) : s[j] < s[j + 1]
